@@ -13,7 +13,8 @@ Validation of the translator itself (every run):
     likewise for `MESSAGE_TYPE =` / `MESSAGE_VERSION =` declarations;
   * every enumerator name found compiles in the probe (by construction: a misread name is a compile error);
   * no enumerator was missed: a second translation unit contains, per enum, a `switch` over one found enumerator per
-    distinct value without `default`, compiled with -Werror=switch (a named value without a case is an error);
+    distinct value without `default`, with -Wswitch made an error for that translation unit's own switches (a named value
+    without a case is an error);
   * every name code round-trips (c03_common.code).
 A block the parser cannot read raises TranslateError (the caller decides: infrastructure error if the headers are
 unchanged since the last good translation, otherwise stage E).
@@ -271,10 +272,13 @@ def probe_source(paths, enums, structs, groups=()):
 
 def switch_source(paths, enums, values):
     """Completeness of the enumerator lists: one case per distinct value, no default, -Werror=switch."""
-    L = ['// generated by tools/c03_cxx_extract.py - do not edit']
+    L = ['// generated by tools/c03_cxx_extract.py - do not edit',
+         '// -Wswitch is an error only for the switches below, not for the switches inside the headers themselves',
+         '#pragma GCC diagnostic push', '#pragma GCC diagnostic ignored "-Wswitch"']
     for p in paths:
         L.append('#include <point_one/fusion_engine/messages/%s>' % os.path.basename(p))
-    L += ['using namespace point_one::fusion_engine::messages;']
+    L += ['#pragma GCC diagnostic pop', '#pragma GCC diagnostic error "-Wswitch"',
+          'using namespace point_one::fusion_engine::messages;']
     for k, e in enumerate(enums):
         L.append('int complete_%d(%s v) {' % (k, e['name']))
         L.append('  switch (v) {')
@@ -334,7 +338,7 @@ def run_probe(repo, build, paths, enums, structs, groups=(), cxx=None):
     sw = os.path.join(build, 'c03_switch.cc')
     with open(sw, 'w') as f:
         f.write(switch_source(paths, enums, values))
-    p = subprocess.run([cxx, '-std=c++14', '-fsyntax-only', '-Wswitch', '-Werror=switch', '-I' + inc, sw],
+    p = subprocess.run([cxx, '-std=c++14', '-fsyntax-only', '-I' + inc, sw],
                        stdout=subprocess.PIPE, stderr=subprocess.STDOUT, text=True)
     if p.returncode != 0:
         raise TranslateError('c03_switch.cc', 'the parser missed an enumerator (or misread one): %s' % p.stdout[-1500:])
